@@ -449,6 +449,12 @@ func (e *Engine) Run(prop string, ch *kernel.Chooser, st *kernel.Stats) kernel.R
 		case 4: // AdvanceLine
 			ops = append(ops, Op{Kind: "AdvanceLine"})
 			if cw != nil {
+				if ch.Bool(1, 3) {
+					// a Windows line end written rune by rune is one line break
+					cw.WriteRune('\r')
+					written.WriteByte('\r')
+					st.Inc("fault.crlf_written_as_two_runes")
+				}
 				cw.WriteRune('\n')
 				written.WriteByte('\n')
 			} else {
